@@ -6,6 +6,8 @@ import (
 	"fmt"
 	"math/rand"
 	"sort"
+	"strconv"
+	"strings"
 	"sync"
 
 	"golang.org/x/mod/sumdb/tlog"
@@ -312,9 +314,56 @@ func (w *tilesWorld) checkPath(c *core.Case) ([]core.Violation, bool) {
 		if t.Path() != s {
 			return viol(c, "tilepath:roundtrip", "Tile%+v.Path()=%q, parsed from %q", t, t.Path(), s), true
 		}
+		// the same tile with more groups of three digits in front of its number, up to seven groups (numbers up to
+		// 2^63 - 1; beyond the 32-bit integers of the model, so the number is computed here): full and partial widths
+		if exp.Tile[2] >= 0 {
+			if msg := bigTilePaths(s, exp.Tile); msg != "" {
+				return viol(c, "tilepath:big", "%s", msg), true
+			}
+		}
 	}
 	return nil, true
 }
+
+func bigTilePaths(s string, tile [4]int64) string {
+	parts := strings.Split(s, "/") // tile / H / L / groups... [ / W when the last group ends in .p ]
+	groups := len(parts) - 3
+	if strings.HasSuffix(parts[len(parts)-2], ".p") {
+		groups--
+	}
+	for _, lead := range [][]string{{"x001"}, {"x001", "x000"}, {"x009", "x223", "x372", "x036", "x854", "x775"}, {"x001", "x002", "x003", "x004", "x005", "x006"}} {
+		for len(lead)+groups > 7 {
+			lead = lead[:len(lead)-1]
+		}
+		if len(lead) == 0 {
+			continue
+		}
+		n := int64(0)
+		for _, g := range lead {
+			v, _ := strconv.Atoi(g[1:])
+			n = n*1000 + int64(v)
+		}
+		mul := int64(1)
+		for i := 0; i < groups; i++ {
+			mul *= 1000
+		}
+		if n > (1<<63-1-tile[2])/mul {
+			continue
+		}
+		n = n*mul + tile[2]
+		// every group but the last carries an x already, so the leading groups go in front unchanged
+		s2 := strings.Join(append(append(append([]string{}, parts[:3]...), lead...), parts[3:]...), "/")
+		t2, err := tlog.ParseTilePath(s2)
+		if err != nil || int64(t2.H) != tile[0] || int64(t2.L) != tile[1] || t2.N != n || int64(t2.W) != tile[3] {
+			return fmt.Sprintf("ParseTilePath(%q)=%+v, %v; it names tile number %d of height %d level %d width %d", s2, t2, err, n, tile[0], tile[1], tile[3])
+		}
+		if t2.Path() != s2 {
+			return fmt.Sprintf("Tile%+v.Path()=%q, parsed from %q", t2, t2.Path(), s2)
+		}
+	}
+	return ""
+}
+
 
 func tileKeys(ts []tlog.Tile) [][3]int64 {
 	out := make([][3]int64, len(ts))
